@@ -16,6 +16,7 @@ import AiuVerif.Props.C03
 import AiuVerif.Gen.Sites
 import AiuVerif.Gen.Tables
 import AiuVerif.Gen.Profiles
+import AiuVerif.Props.C02
 
 namespace AiuVerif.C08
 open AiuVerif.Sort RS
@@ -226,6 +227,37 @@ theorem final_sort_enabled_in_profiles :
     Gen.everything.map (·.getLast?) = some (some ("sort_events", true)) ∧
     Gen.torchMinimal.map (·.getLast?) = some (some ("sort_events", true)) := by
   decide +kernel
+
+/-- **The sort key of the final sort is the export key** (`sort_key_eq_export_key`): for every
+switch combination no counter, flow arrow, metadata or instant event can reach the final sort with a
+`dur` of its own — the only stage that puts one there (`compute_utilization`, on its counters) is
+followed by the stage that removes it, whatever is switched on.  So "no duration" at the final sort
+is "no duration" in the file, and `export_sorted_all` speaks about the exported order.  The stage
+effects the analysis relies on are re-observed on the real per-stage streams of every `-I` run
+(`harness/props/c02.py`, key `nonSliceDur`). -/
+theorem sort_key_eq_export_key (v : String → Bool) :
+    Export.mayCarry .nonSliceDur v (Gen.sites.dropLast.map fun s => ⟨s.name, s.cond, s.guard⟩) false = false ∧
+    Export.effect .nonSliceDur "sort_events" = .none := by
+  refine ⟨?_, rfl⟩
+  have h := C02.no_nonslice_dur v false
+  have hlast : Gen.sites.getLast?.map (·.name) = some "sort_events" := by decide +kernel
+  -- the last site has no effect on the key, so the value behind all sites is the value in front of it
+  have hsplit : C02.genSt = (Gen.sites.dropLast.map fun s => (⟨s.name, s.cond, s.guard⟩ : Export.St)) ++
+      [⟨"sort_events", false, ""⟩] := by decide +kernel
+  rw [hsplit] at h
+  have key : ∀ (L : List Export.St) (f : Bool),
+      Export.mayCarry .nonSliceDur v (L ++ [⟨"sort_events", false, ""⟩]) f = Export.mayCarry .nonSliceDur v L f := by
+    intro L
+    induction L with
+    | nil => intro f; simp [Export.mayCarry, Export.selected, Export.effect]
+    | cons s rest ih =>
+      intro f
+      simp only [List.cons_append, Export.mayCarry]
+      split
+      · split <;> exact ih _
+      · exact ih _
+  rw [key] at h
+  exact h
 
 /-! ### non-vacuity -/
 def ev (u : Nat) (ts : Rat) (d : Option Rat) : SEv :=
